@@ -371,7 +371,7 @@ func runC12(c *Ctx) {
 				if ts, expired, ok := ageFact(ft, func(e ast.Expr) bool {
 					return eng.IsField(info, e, "dht/rtrefresh.RtRefreshManager.successfulOutboundQueryGracePeriod")
 				}); ok && expired {
-					if s, isSel := eng.Unparen(ts).(*ast.SelectorExpr); isSel && s.Sel.Name == "LastSuccessfulOutboundQueryAt" {
+					if s, isSel := eng.Unparen(ts).(*ast.SelectorExpr); isSel && eng.NameOf(s.Sel) == "LastSuccessfulOutboundQueryAt" {
 						okSkip = true
 					}
 				}
@@ -388,13 +388,28 @@ func runC12(c *Ctx) {
 		info := f.Info()
 		var waiting eng.Object
 		var appends []eng.Loc
-		for _, as := range assignsTo(f, func(l ast.Expr) bool { id, ok := l.(*ast.Ident); return ok && id.Name == "waiting" }) {
-			if _, isApp := eng.IsCallTo(info, as.Rhs[0], "builtin.append"); isApp {
-				waiting = eng.ObjOf(info, as.Lhs[0])
-				appends = append(appends, cf.LocOf(as))
+		// the waiter list is the local slice that reply channels (triggerRefreshReq.respCh) are appended to
+		for _, as := range assignsTo(f, func(l ast.Expr) bool {
+			v, ok := eng.ObjOf(info, l).(*eng.Var)
+			return ok && !v.IsField()
+		}) {
+			if app, isApp := eng.IsCallTo(info, as.Rhs[0], "builtin.append"); isApp && len(as.Lhs) == 1 && len(app.Args) == 2 &&
+				eng.IsObj(info, app.Args[0], eng.ObjOf(info, as.Lhs[0])) && eng.IsField(info, app.Args[1], "dht/rtrefresh.triggerRefreshReq.respCh") {
+				if waiting == nil || waiting == eng.ObjOf(info, as.Lhs[0]) {
+					waiting = eng.ObjOf(info, as.Lhs[0])
+					appends = append(appends, cf.LocOf(as))
+				}
 			}
 		}
-		if c.Check(K(f.Name, "collects waiters"), f.Pos(), len(appends) == 2 && waiting != nil, "requests with a reply channel are collected (first request and batched ones)", "found "+itoa(len(appends))+" appends") {
+		// one collection point per place a request is received
+		nrecv := 0
+		f.Walk(func(n ast.Node) bool {
+			if u, ok := n.(*ast.UnaryExpr); ok && u.Op == token.ARROW && eng.IsField(info, u.X, "dht/rtrefresh.RtRefreshManager.triggerRefresh") {
+				nrecv++
+			}
+			return true
+		})
+		if c.Check(K(f.Name, "collects waiters"), f.Pos(), len(appends) >= 1 && len(appends) == nrecv && waiting != nil, "requests with a reply channel are collected wherever a request is received (first request and batched ones)", "found "+itoa(len(appends))+" appends for "+itoa(nrecv)+" receives") {
 			var ans *ast.RangeStmt
 			f.Walk(func(n ast.Node) bool {
 				if rg, ok := n.(*ast.RangeStmt); ok && eng.IsObj(info, rg.X, waiting) {
